@@ -145,7 +145,9 @@ def encode_entry(prog, entry, width, buflen, value=None):
 
 def spec_positions(f):
     """reference field -> [(byte, bit)] MSB first.
-    f = (byte, msb, lsb)  or  (first_byte, msb, last_byte, lsb)"""
+    f = (byte, msb, lsb)  or  (first_byte, msb, last_byte, lsb)  or  ("bits", positions)"""
+    if f[0] == "bits":
+        return [tuple(p) for p in f[1]]
     if len(f) == 3:
         byte, msb, lsb = f
         return [(byte, b) for b in range(msb, lsb - 1, -1)]
